@@ -71,6 +71,47 @@ NEEDS = {
  'C18_c': ('StructuredAsset: result of cType.replace discarded (re-introduces the defect fixed in b24b651) (round 2)', 'LP portfolio with a structured asset that has an internal node; nodal prices read'),
  'C19_c': ('prices_to_grid recognises gridded data only if the index is a RangeIndex (round 2)', 'price DataFrame / Series with integer labels that are not a RangeIndex'),
  'C20_c': ('orders whose start lies before the horizon start are skipped (round 2)', 'an order that starts before the grid start and ends inside it'),
+ # ---- round 3 (fresh sub-agents on the repaired tree, told what rounds 1 and 2 had produced)
+ 'C01_e': ('Portfolio.setup_optim_problem appends nodes without variables to its mutable default skip_nodes list (persists across calls)', 'a set-up in which all assets of a node are outside the grid followed by one where the node is active (split with a node active only in later intervals; rolling use)'),
+ 'C01_f': ('optimize rounds the booleans flagged in self.mapping after a relaxed (make_soft_problem) solve', 'make_soft_problem=True, a boolean that enters a node balance (full_exec order, fuel consumption if on) and a fractional relaxed optimum'),
+ 'C02_e': ('holding costs only charged when the storage has its own price (indentation)', 'cost_store != 0 on a one-variable storage (eff_in 1, no in/out costs, one node) without own price'),
+ 'C02_f': ('discount exponent Dt/24 (assumes main time unit h)', 'main_time_unit other than h and wacc != 0'),
+ 'C03_d': ('booleans with l == u lose their boolean flag in optimize', 'a MIP in which a boolean is fixed to a fraction (e.g. pinned to a relaxed result)'),
+ 'C03_e': ('cvxpy SolverError swallowed and reported as "not successful"', 'a feasible MIP solved with an explicit LP-only solver (CLARABEL)'),
+ 'C04_c': ('Asset.dcf returns zeros when timegrid.restricted.T == 0 (shared grid: the window of the asset set up LAST)', 'the last asset of the portfolio lies wholly outside the horizon'),
+ 'C04_d': ('split optimize: value of an interval added only if the interval has duals (MIP intervals skipped)', 'split optimisation with an interval that contains binary variables'),
+ 'C05_d': ('max_store_duration rows use the storage size as big-M instead of the row-specific bound', 'max_store_duration and an incentive to end above the end level (negative prices at the end) or start level / inflow > 0'),
+ 'C05_e': ('block loop subtracts in place on a view of the cumulative inflow', 'inflow != 0 with block_size and >= 3 blocks'),
+ 'C06_d': ('include_start_variables tests the raw min_runtime (main units) instead of steps (same mechanism as C12_a)', 'grid finer than the main unit, 0 < min_runtime <= 1 unit, no start costs / fuel / ramps'),
+ 'C06_e': ('consumption_if_on scaled with dt[0] only', 'fuel node, consumption_if_on != 0, daily steps over a DST switch'),
+ 'C07_e': ('cost block of the shutdown variables sized with the full grid T', 'Plant/CHP with start or shutdown ramp and an own window shorter than the grid'),
+ 'C07_f': ('periodic merge: the joined-groups memory is reset per node (costs and columns added twice; same change as C13_e)', 'periodic Transport / ExtendedTransport with costs or take on a grid longer than one period'),
+ 'C08_d': ('order window start taken as the grid step the start falls into (tp[-1] wrap-around for starts before the grid)', 'an order starting before the horizon or lying wholly after it'),
+ 'C08_e': ('StructuredAsset clips the wrapped assets with a.end = max(a.end, self.end) (same as C16_f; rebased onto the window fix e504c0e)', 'structured asset with own end around an asset with a different own end'),
+ 'C09_c': ('StructuredAsset clips each wrapped asset with the running intersection of all previous ones (rebased onto e504c0e)', 'structured asset with own window, >= 2 wrapped assets with different windows, inner list permuted'),
+ 'C09_d': ('coarse mapping extension runs pd.to_numeric over every mapping column (names that look like numbers become numbers)', 'asset with own coarser freq and a numeric-looking asset or node name'),
+ 'C10_e': ('ExtendedTransport negates the take values in place on the caller\'s numpy array', 'min_take / max_take values given as a float numpy array and two set-ups'),
+ 'C10_f': ('Asset.set_timegrid drops the asset\'s own freq for good when it equals the grid\'s', 'asset with own freq set up on a grid of that frequency, then on a finer grid'),
+ 'C11_e': ('Timegrid JSON stores the canonical pandas spelling of freq (d -> D)', 'portfolio saved with its own daily grid, Plant/CHP with own freq / ramp_freq equal to the grid\'s (compared as text)'),
+ 'C11_f': ('prep_date_dict localises naive dates only if they are not already pd.Timestamp (loaded objects hold Timestamps)', 'zone-aware grid, take periods given as naive datetimes, set-up of the loaded object'),
+ 'C12_d': ('storage holding cost: dt pulled out of the tail sum (equal steps assumed)', 'cost_store != 0 on a grid with unequal steps'),
+ 'C12_e': ('first-step ramp row uses the raw last_dispatch attribute (rate) next to the converted ramp', 'Plant/CHP without on/off variables, ramp, last_dispatch != 0, dt != 1'),
+ 'C13_d': ('coarse step length b-a instead of the covered fine steps (same as C08_b / C19_a)', 'coarse asset whose window reaches beyond the horizon off the coarse grid'),
+ 'C13_e': ('periodic merge: joined-groups memory reset per node (same as C07_f)', 'periodic Transport with costs / take'),
+ 'C14_e': ('cumulative storage inflow from restricted.Dt (time since the horizon start; same as C05_a)', 'Storage with inflow and a split with >= 2 intervals'),
+ 'C14_f': ('prorated take written back into the shared take definition (rescaled per interval)', 'take OBLIGATION (min_take > 0) over a period spanning several split intervals'),
+ 'C15_d': ('fix_time_window["I"] normalised in place with np.flatnonzero (not idempotent)', 'integer index window, or the same dictionary reused'),
+ 'C15_e': ('only dispatch variables (type d) are pinned', 'asset with non-dispatch variables in the window (scale variable, binaries)'),
+ 'C16_e': ('fix costs of the scaled asset discounted', 'ScaledAsset with wacc != 0 and fix_costs != 0'),
+ 'C16_f': ('same as C08_e', 'structured asset with own end around an asset with a different own end'),
+ 'C17_e': ('make_slp: a variable is future if ANY of its mapping rows is (rebased onto 9408c59)', 'variables with rows on both sides of the stage boundary (orders, coarse assets)'),
+ 'C17_f': ('fix_time_window pins only d / i variables (same mechanism as C15_e)', 'ScaledAsset (size variable) in the present stage'),
+ 'C18_d': ('nodal prices divided by the discount factor of the shared grid', 'wacc != 0 on the asset set up last, steps away from the start'),
+ 'C18_e': ('nodal rows equilibrated (divided by their largest coefficient), duals not scaled back', 'a node whose balance row has a largest coefficient != 1 (efficiency, fuel, commodity factors, coarse weights)'),
+ 'C19_d': ('dt constant for Tick frequencies (daily steps treated as 24 h)', 'daily grid in a DST zone over a switch'),
+ 'C19_e': ('coarse restricted grid keeps the incomplete last interval up to the REFERENCE grid end', 'coarse asset with own end before the grid end'),
+ 'C20_d': ('order windows compared on zone-stripped wall-clock time', 'zone-aware grid and order dates quoted in another zone'),
+ 'C20_e': ('order cost vector inherits the integer dtype of capa * price (in-place update truncates)', 'integer capa and price with a non-integer discounted duration'),
  'C20_b': ('OrderBook skips set_timegrid when it already holds this grid object (reads another asset\'s restricted grid / wacc)', 'portfolio set up twice on the same Timegrid object with a windowed / other-wacc asset handled just before the book'),
 }
 rows = []
